@@ -355,6 +355,12 @@ impl GrandState {
             ));
         }
         if option == EnterSubshellOption::Ignore {
+            if self.current_state.action != Action::Ignore {
+                // The signal was not ignored before entering the subshell, so
+                // it must not be regarded as ignored on entry to the shell,
+                // which would prevent setting a trap for it afterwards.
+                self.current_state.origin = Origin::Subshell;
+            }
             self.current_state.action = Action::Ignore;
         }
 
@@ -1256,6 +1262,41 @@ mod tests {
             })
         );
         assert_eq!(system.0.borrow()[&SIGQUIT], Disposition::Ignore);
+    }
+
+    #[test]
+    fn enter_subshell_ignoring_signal_with_default_action_known_from_system() {
+        // The entry is created by peeking the current (default) disposition,
+        // as the trap built-in does when printing traps.
+        let system = DummySystem::default();
+        let mut map = BTreeMap::new();
+        let cond = SIGQUIT.into();
+        GrandState::insert_from_system_if_vacant(&system, map.entry(cond)).unwrap();
+
+        let result = map
+            .get_mut(&cond)
+            .unwrap()
+            .enter_subshell(&system, cond, EnterSubshellOption::Ignore)
+            .now_or_never()
+            .unwrap();
+        assert_eq!(result, Ok(()));
+        assert_eq!(
+            map[&cond].current_state(),
+            &TrapState {
+                action: Action::Ignore,
+                origin: Origin::Subshell,
+                pending: false
+            }
+        );
+
+        // The signal was not ignored on entry to the shell, so a trap can be set.
+        let action = Action::Command("echo".into());
+        let result =
+            GrandState::set_action(&system, map.entry(cond), action, Location::dummy(""), false)
+                .now_or_never()
+                .unwrap();
+        assert_eq!(result, Ok(()));
+        assert_eq!(system.0.borrow()[&SIGQUIT], Disposition::Catch);
     }
 
     #[test]
